@@ -8,6 +8,7 @@ ActsAll == {"Translate", "Scale", "MeshRotate90", "FieldRotate90", "MkField",
             "Neg", "Pos", "Abs", "Add", "Mul", "MulNum", "Comp", "LShift", "Diff",
             "Sub", "Dot", "Cross", "Norm", "Orientation", "Integrate", "FromField", "SetSub",
             "QMeshClose", "QFieldClose", "QRegionIn", "QAligned", "QEq", "QMean", "QCall", "Mean", "SetVdims",
+            "AddNum", "Pow2", "Angle", "IntegrateCum",
             "SetValidArray", "SetValidNorm", "SetValidNone", "MutateValid", "UpdateConst", "SetArray", "WriteArray",
             "SelPlane", "SelRange", "GetSub", "GetRegion", "Pad", "Resample",
             "H5", "Ovf", "Vtk", "Xarray"}
